@@ -122,6 +122,9 @@ func (t *Trans) callStatic(fr *Frame, f *ssa.Function, argVals []ssa.Value, args
 			w = t.P.funcWrites(t.env, f)
 		}
 		pend := t.checkCallbackArgs(fr, c.Key, shortFn(f), names, ptypes, argVals, pos)
+		if f.Signature.Recv() != nil && len(args) > 0 && len(f.Params) > 0 && t.selfTerm == "" {
+			t.selfTerm = t.box(args[0], f.Params[0].Type()) // "self" of a method contract: the boxed receiver
+		}
 		res := t.applyContract(fr, c, shortFn(f), f.Signature, names, ptypes, args, w, pos)
 		for _, p := range pend {
 			t.assume(fr.curReach, p(fr.st))
@@ -372,6 +375,21 @@ func (t *Trans) applyContract(fr *Frame, c *Contract, cname string, sig *types.S
 				}
 				t.oblige("assert", fmt.Sprintf("%s#assert.%s@%s", fr.path, labelOr(parts[1], "a"), parts[0]), tagsOr(ab.Tags, fr.tags), fr.curReach, asc.expandBool(ab.Expr), pos, "holds just before the call to "+cname)
 			}
+		}
+		// reveal-before <callee> (f args): definitional instance of an opaque spec function in the state just
+		// before the call (for nodes allocated by the function under verification)
+		for _, rb := range t.topC.Extra["reveal-before"] {
+			if !rb.IsL || len(rb.List) != 2 || !strings.HasSuffix(cname, rb.List[0].Atom) {
+				continue
+			}
+			tf := t.topFrame
+			asc := &SpecCtx{t: t, fr: tf, st: fr.st, old: tf.entrySt, at: tf.curBlock, names: map[string]specVal{}}
+			for i, n := range names {
+				if i < len(args) {
+					asc.names["$"+n] = specVal{args[i], ptypes[i]}
+				}
+			}
+			t.assume(fr.curReach, revealInstance(asc, rb.List[1]))
 		}
 	}
 	for _, u := range c.Uses {
@@ -756,8 +774,8 @@ func (t *Trans) execBuiltin(fr *Frame, b *ssa.Builtin, c *ssa.CallCommon, args [
 		for _, comp := range t.leafComps(elem) {
 			n := t.freshConst(env.comps[comp], comp+"@app")
 			old := fr.st.get(comp)
-			t.assume("true", fmt.Sprintf("(forall ((p!a Ref)) (! (= (select %s p!a) (ite (and (isidx p!a) (= (ibase p!a) %s)) (ite (bvult (iidx p!a) %s) (select %s (idx (sbase %s) (bvadd (soff %s) (iidx p!a)))) (select %s (idx (sbase %s) (bvadd (soff %s) (bvsub (iidx p!a) %s))))) (select %s p!a))) :pattern ((select %s p!a))))",
-				n, r, l1, old, s1, s1, old, s2, s2, l1, old, n))
+			t.assume("true", fmt.Sprintf("(forall ((p!a Ref)) (! (= (select %s p!a) (ite (and (isidx p!a) (= (ibase p!a) %s)) (ite (bvult (iidx p!a) %s) (select %s (selemaddr %s (iidx p!a))) (select %s (selemaddr %s (bvsub (iidx p!a) %s)))) (select %s p!a))) :pattern ((select %s p!a))))",
+				n, r, l1, old, s1, old, s2, l1, old, n))
 			fr.st = fr.st.set(comp, n)
 		}
 		return []string{res}
